@@ -47,6 +47,17 @@ func childSlots(n ast.Node) []*ast.Node {
 	return out
 }
 
+// walkSlots is childSlots with the one exception the tree shape has: the
+// parser builds `a ?: b` as ConditionalNode{Cond: n, Exp1: n} with one node n
+// in both slots, which is one node of the tree and is walked through Cond.
+func walkSlots(n ast.Node) []*ast.Node {
+	slots := childSlots(n)
+	if c, ok := n.(*ast.ConditionalNode); ok && c.Cond != nil && c.Cond == c.Exp1 && len(slots) >= 2 {
+		return append(slots[:1:1], slots[2:]...)
+	}
+	return slots
+}
+
 type walkEvent struct {
 	enter bool
 	slot  *ast.Node
@@ -55,7 +66,7 @@ type walkEvent struct {
 
 func expectedStream(slot *ast.Node, out *[]walkEvent) {
 	*out = append(*out, walkEvent{true, slot, *slot})
-	for _, c := range childSlots(*slot) {
+	for _, c := range walkSlots(*slot) {
 		expectedStream(c, out)
 	}
 	*out = append(*out, walkEvent{false, slot, *slot})
@@ -206,7 +217,7 @@ func countMarkers(slot *ast.Node) (markers, sevens int) {
 	if in, ok := (*slot).(*ast.IntegerNode); ok && in.Value == 7 {
 		sevens++
 	}
-	for _, c := range childSlots(*slot) {
+	for _, c := range walkSlots(*slot) {
 		m, s := countMarkers(c)
 		markers += m
 		sevens += s
